@@ -108,6 +108,9 @@ func init() { generators["Fn"] = genFn }
 
 var panicking = map[string]bool{}
 
+// functions to stub although they translate (-fn-skip a,b,…; see run_extractor in /verif/check)
+var fnSkip = map[string]bool{}
+
 func checkStruct(p *pkgInfo, sn string) bool {
 	for _, f := range p.files {
 		for _, d := range f.Decls {
@@ -277,6 +280,11 @@ func genFn(p *pkgInfo, l *leanFile) {
 			continue
 		}
 		txt, err := trFunc(p, fd, tg, t.externs)
+		if err == "" && fnSkip[name] {
+			// the orchestrator found that the definition printed for this function does not compile
+			// (a construct the translator accepts but prints wrongly): stub it, like a refused one
+			err = "the printed definition did not compile"
+		}
 		if err != "" {
 			miss("translation of " + name + ": " + err)
 			l.pf("-- %s: NOT TRANSLATED (%s)\n%s\n\n", name, err, t.stub)
